@@ -273,6 +273,7 @@ func (m *monKeys) AfterBlock(c *Chain, req *abci.RequestFinalizeBlock, res *abci
 					delete(cr, pc)
 				}
 			}
+			delete(m.provAddrs, pc)
 		}
 	}
 	// pruning of replaced keys whose deadline has passed (consumers with a client, i.e. launched or stopped)
